@@ -21,7 +21,7 @@ from simkit import net as simnet
 
 ID = "C19"
 LEVEL = "fault_enumeration"
-TIERS = {"quick": {"runs": 400, "wall": 120}, "thorough": {"runs": 40000, "wall": 1500}}
+TIERS = {"quick": {"runs": 800, "wall": 150}, "thorough": {"runs": 40000, "wall": 1500}}
 TRACE_KEYS = ("faults",)
 RUN_TIMEOUT = 240     # one run = fault-free + every single fault (+ pairs) on one world
 RULE = ("worlds = seeded random file histories v0..vn (n<=6, <=12 lines each) published as "
@@ -50,7 +50,7 @@ ASSUMPTIONS = [
     "and six evenly spread writes); pairs are sampled",
     "no fsync / power-loss durability claim is checked (the property makes none)",
 ]
-PROBES = ["recovery_update_after_fault", "stale_new_file_present", "bulk_world_over_8k",
+PROBES = ["second_update_after_repository_moved_on", "recovery_update_after_fault", "stale_new_file_present", "bulk_world_over_8k",
           "rename_fails_after_all_writes", "first_write_fails", "last_patch_corrupted",
           "local_version_occurs_twice", "empty_to_nonempty", "nonempty_to_empty",
           "sha256_only_index", "window_excludes_local", "patch_chain_len>=3",
@@ -164,6 +164,10 @@ def generate(seed, run, tier):
              "stale_new": rs.choice([None, None, None, "stale left-over\n"]),
              "local": local,
              "verbose": rs.random() < 0.3}
+    if rs.random() < 0.5:
+        # the repository moves on after the first update: one more version is published
+        world["next_version"] = _mutate(rw, [l for l in versions[-1] if not l.startswith("bulk ")]
+                                        if len(versions[-1]) > 40 else versions[-1], uniq)
     npairs = 0 if tier == "quick" else 12
     pairs = [[rf.random(), rf.random()] for _ in range(npairs)]
     return {"world": world, "enumerate": True, "pairs": pairs}
@@ -548,6 +552,39 @@ def run_one(world, faults, log=None, out=None, transport="sim", judge=True):
                       second_update_exception=repr(exc2), local_is_current=after2 == current,
                       leftovers_after_second=left2)
             res["recovered"] = True
+        if exc is None and not faults and world.get("next_version") is not None:
+            # second epoch: the repository publishes one more version; the same client (same
+            # process, same local file) updates again and must converge to it - by patches,
+            # since its local copy is now the previous current version
+            w2 = dict(world)
+            w2["versions"] = list(vs) + [list(world["next_version"])]
+            w2["window"] = min(world["window"] + 1, len(vs))
+            w2.pop("next_version")
+            files2, _, info2 = build_repo(w2, [])
+            net.reset(files2, {})
+            tempfile.tempdir = tdir
+            exc2 = ret2 = None
+            try:
+                with SimFS(ldir, FaultPlan([])), contextlib.redirect_stdout(io.StringIO()):
+                    try:
+                        ret2 = ds.update_file(REMOTE, local_path)
+                    except Exception as e:   # pylint: disable=broad-except
+                        exc2 = e
+            finally:
+                tempfile.tempdir = None
+            cur2 = _text(w2["versions"][-1]).encode()
+            after2 = _read(local_path)
+            got2 = [u[len(REMOTE):] for (u, o) in net.log]
+            want_patch = ".diff/" + info2["names"][-1] + ".gz"
+            ok_fetch = True
+            if cur2 != current and w2["window"] >= 1:
+                ok_fetch = want_patch in got2 and ".gz" not in got2
+            if exc2 is not None or after2 != cur2 or ret2 != [l + "\n" for l in w2["versions"][-1]] \
+                    or _leftovers(ldir, local_path, world) or os.listdir(tdir) or not ok_fetch:
+                _fail("second-update-after-repository-moved-on-did-not-converge", faults, res,
+                      second_update_exception=repr(exc2), local_is_new_current=after2 == cur2,
+                      fetched_second=got2)
+            res["evolved"] = True
     return res
 
 
@@ -760,6 +797,8 @@ def _probes(out, world, faults, res):
                 out.probe("empty_to_nonempty")
             if vs[v] and not vs[-1]:
                 out.probe("nonempty_to_empty")
+    if res.get("evolved"):
+        out.probe("second_update_after_repository_moved_on")
     if res.get("recovered"):
         out.probe("recovery_update_after_fault")
     if world.get("stale_new") is not None and not faults:
